@@ -12,11 +12,33 @@ use hyperdriver::{Body, Server};
 use std::collections::BTreeSet;
 use std::time::Duration;
 
+/// Counts the polls of the request future that happen once its 1 s budget is used up.
+struct PastDeadline<F> {
+    inner: std::pin::Pin<Box<F>>,
+    t0: Option<tokio::time::Instant>,
+    polls_past: std::sync::Arc<std::sync::atomic::AtomicU32>,
+}
+
+impl<F: std::future::Future> std::future::Future for PastDeadline<F> {
+    type Output = F::Output;
+    fn poll(mut self: std::pin::Pin<&mut Self>, cx: &mut std::task::Context<'_>) -> std::task::Poll<F::Output> {
+        let now = tokio::time::Instant::now();
+        let t0 = *self.t0.get_or_insert(now);
+        if now.duration_since(t0) >= Duration::from_millis(1000) {
+            self.polls_past.fetch_add(1, std::sync::atomic::Ordering::SeqCst);
+        }
+        self.inner.as_mut().poll(cx)
+    }
+}
+
 #[derive(Clone, Debug)]
 pub struct Scn {
     pub name: &'static str,
     pub victims: Vec<bool>, // h2?
     pub preempt: bool,
+    /// the first answer is a redirect (307, same origin) which the client follows; the clock is moved in
+    /// two steps of 600 ms instead of one of 1500 ms, so that the deadline can fall into the second hop
+    pub redirect: bool,
 }
 
 #[derive(Debug, Clone)]
@@ -34,7 +56,17 @@ pub fn run_one(rt: &tokio::runtime::Runtime, scn: &Scn, schedule: &[usize]) -> E
         {
             let obs_h = obs.clone();
             let exec = s.exec.clone();
-            let svc = tower::service_fn(move |req: http::Request<Body>| handler(obs_h.clone(), "A", req));
+            let svc = tower::service_fn(move |req: http::Request<Body>| {
+                let obs_h = obs_h.clone();
+                async move {
+                    if req.uri().path().starts_with("/hop1-") {
+                        let id = req.uri().path().trim_start_matches("/hop1-").to_string();
+                        yield_now().await;
+                        return Ok(http::Response::builder().status(302).header("date", FIXED_DATE).header("location", format!("/r{id}?q={id}")).body(ChunkBody::new(&[])).unwrap());
+                    }
+                    handler(obs_h, "A", req).await
+                }
+            });
             let server = Server::builder().with_acceptor(ia).with_shared_service(svc).with_protocol(AutoBuilder::new(exec.clone())).with_executor(exec);
             s.spawn("serverA", async move {
                 let _ = server.await;
@@ -42,29 +74,42 @@ pub fn run_one(rt: &tokio::runtime::Runtime, scn: &Scn, schedule: &[usize]) -> E
         }
         let mut pool = hyperdriver::client::PoolConfig::default();
         pool.continue_after_preemption = scn.preempt;
-        let client = hyperdriver::Client::builder().with_auto_http().with_transport(route(ca.clone(), ca.clone(), 1024)).with_pool(pool).with_timeout(Duration::from_secs(1)).without_tls().build();
-        let issued_at = tokio::time::Instant::now();
+        let client = hyperdriver::Client::builder().with_auto_http().with_transport(route(ca.clone(), ca.clone(), 1024)).with_pool(pool).with_timeout(Duration::from_secs(1)).with_standard_redirect_policy().without_tls().build();
         let mut victims = vec![];
         for (i, h2) in scn.victims.iter().enumerate() {
             let id = (i + 1) as u32;
             let mut c = client.clone();
             let obs = obs.clone();
             let h2 = *h2;
+            let redirect = scn.redirect;
+            let first_path = if scn.redirect { format!("hop1-{id}") } else { format!("r{id}?q={id}") };
             let tid = s.spawn(&format!("req{id}"), async move {
-                let req = http::Request::builder().method("POST").uri(format!("http://a.test/r{id}?q={id}")).version(if h2 { http::Version::HTTP_2 } else { http::Version::HTTP_11 }).header("x-id", id.to_string()).body(Body::from(req_body(id))).unwrap();
-                let r = c.request(req).await;
+                let req = http::Request::builder().method(if redirect { "GET" } else { "POST" }).uri(format!("http://a.test/{first_path}")).version(if h2 { http::Version::HTTP_2 } else { http::Version::HTTP_11 }).header("x-id", id.to_string()).body(if redirect { Body::empty() } else { Body::from(req_body(id)) }).unwrap();
+                // the request future is lazy: its clock starts when it is first polled, which is here
+                let issued_at = tokio::time::Instant::now();
+                let polls_past = std::sync::Arc::new(std::sync::atomic::AtomicU32::new(0));
+                let r = PastDeadline { inner: Box::pin(c.request(req)), t0: None, polls_past: polls_past.clone() }.await;
                 let t = tokio::time::Instant::now().duration_since(issued_at);
                 let out = match r {
                     Ok(resp) => collect_response(resp).await,
                     Err(e) => Err(format!("{e} @{}ms", t.as_millis())),
                 };
-                obs.lock().unwrap().responses.insert(id, out);
+                let mut o = obs.lock().unwrap();
+                // virtual instant at which the caller had its answer (head) in hand
+                o.notes.push(format!("polls-past-deadline {id} ={}", polls_past.load(std::sync::atomic::Ordering::SeqCst)));
+                o.responses.insert(id, out);
             });
             victims.push(tid);
         }
         // the deadline: virtual time jumps past the configured timeout
         let v2 = victims.clone();
-        s.env("deadline", false, move |s| v2.iter().any(|t| !s.task_done(*t)), |s| s.pause_request = Some(Duration::from_millis(1500)));
+        if scn.redirect {
+            let v2b = victims.clone();
+            s.env("advance-600-a", false, move |s| v2.iter().any(|t| !s.task_done(*t)), |s| s.pause_request = Some(Duration::from_millis(600)));
+            s.env("deadline", false, move |s| s.points.iter().any(|p| p.what == "env advance-600-a") && v2b.iter().any(|t| !s.task_done(*t)), |s| s.pause_request = Some(Duration::from_millis(600)));
+        } else {
+            s.env("deadline", false, move |s| v2.iter().any(|t| !s.task_done(*t)), |s| s.pause_request = Some(Duration::from_millis(1500)));
+        }
         // afterwards: a fresh request to the same origin (its own 1 s budget starts when it is issued)
         let c2 = client.clone();
         let obs_p = obs.clone();
@@ -102,14 +147,24 @@ pub fn run_one(rt: &tokio::runtime::Runtime, scn: &Scn, schedule: &[usize]) -> E
                 viols.push(("panic".into(), format!("task {t} panicked: {p}")));
             }
             let deadline_fired = s.points.iter().any(|p| p.what == "env deadline");
+            let at_deadline = if scn.redirect { "@1200ms" } else { "@1500ms" };
             for (i, _) in scn.victims.iter().enumerate() {
                 let id = (i + 1) as u32;
+                // once its budget is used up the request resolves at its very next poll (with the inner result if
+                // that is ready then, else with the timeout error): it is never left pending past the deadline
+                if let Some(n) = o.notes.iter().find(|n| n.starts_with(&format!("polls-past-deadline {id} ="))) {
+                    let k: u32 = n.rsplit('=').next().and_then(|x| x.parse().ok()).unwrap_or(0);
+                    if k > 1 {
+                        viols.push(("pending-past-deadline".into(), format!("request {id} (timeout 1 s) was polled {k} times after its deadline had passed before it resolved")));
+                    }
+                }
                 match o.responses.get(&id) {
                     Some(Ok(r)) if *r == expected_resp(id, "A") => {}
+                    Some(Ok(r)) if scn.redirect && r.status == 200 && r.echo_id == Some(id.to_string()) && r.body == format!("resp{id}@A:|tail").into_bytes() => {}
                     Some(Err(e)) if e.contains("request timeout") && deadline_fired => {
                         // must have been delivered at the deadline, not later
-                        if !e.contains("@1500ms") {
-                            viols.push(("timeout-late".into(), format!("request {id} timed out at {e}, the clock stood at 1500ms when the deadline passed")));
+                        if !e.contains(at_deadline) {
+                            viols.push(("timeout-late".into(), format!("request {id} timed out at {e}, the clock stood at {at_deadline} when the deadline passed")));
                         }
                     }
                     // a request that relied on another request's attempt is released with an error when
@@ -137,11 +192,14 @@ pub fn run_one(rt: &tokio::runtime::Runtime, scn: &Scn, schedule: &[usize]) -> E
 
 pub fn scenarios() -> Vec<Scn> {
     vec![
-        Scn { name: "h1-one", victims: vec![false], preempt: true },
-        Scn { name: "h2-one", victims: vec![true], preempt: true },
-        Scn { name: "h2-two-sharing-a-dial", victims: vec![true, true], preempt: true },
-        Scn { name: "h2-two-no-continue", victims: vec![true, true], preempt: false },
-        Scn { name: "h1-two", victims: vec![false, false], preempt: true },
+        Scn { name: "h1-one", victims: vec![false], preempt: true, redirect: false },
+        Scn { name: "h2-one", victims: vec![true], preempt: true, redirect: false },
+        Scn { name: "h2-two-sharing-a-dial", victims: vec![true, true], preempt: true, redirect: false },
+        Scn { name: "h2-two-no-continue", victims: vec![true, true], preempt: false, redirect: false },
+        Scn { name: "h1-two", victims: vec![false, false], preempt: true, redirect: false },
+        // a followed redirect: the deadline covers both hops together
+        Scn { name: "h1-redirect-followed", victims: vec![false], preempt: true, redirect: true },
+        Scn { name: "h2-redirect-followed", victims: vec![true], preempt: true, redirect: true },
     ]
 }
 
